@@ -53,8 +53,39 @@ def enc_D(x: float) -> str:
     return f'{fr.numerator}/{fr.denominator}'
 
 
+def days_from_civil(y: int, m: int, d: int) -> int:
+    """days since 0001-01-01 of the proleptic Gregorian date with *astronomical* year y (0 = 1 BCE);
+    the harness' own arithmetic (H. Hinnant's algorithm), independent of elementpath and of datetime"""
+    y -= m <= 2
+    era = (y if y >= 0 else y - 399) // 400
+    yoe = y - era * 400
+    doy = (153 * (m + (-3 if m > 2 else 9)) + 2) // 5 + d - 1
+    doe = yoe * 365 + yoe // 4 - yoe // 100 + doy
+    return era * 146097 + doe - 719468 + 719162      # 719162 = days from 0001-01-01 to 1970-01-01
+
+
 def dt_seconds(y, mo, d, h=0, mi=0, s=0) -> int:
-    return int((pydt.datetime(y, mo, d, h, mi, s) - pydt.datetime(1, 1, 1)).total_seconds())
+    t = days_from_civil(y, mo, d) * 86400 + h * 3600 + mi * 60 + s
+    if 1 <= y <= 9999:
+        assert t == int((pydt.datetime(y, mo, d, h, mi, s) - pydt.datetime(1, 1, 1)).total_seconds())
+    return t
+
+
+def dt_class(it) -> str:
+    """concrete Python class of a date / dateTime item: '10' (Date10 / DateTime10), '11' (Date / DateTime)
+    or 'st' (DateTimeStamp, needs a timezone); explicit 4th field, else chosen from the content"""
+    if len(it) > 3:
+        return it[3]
+    tz = it[2] if len(it) > 2 else None
+    k = sum(it[1]) % (3 if it[0] == 'T' else 2)
+    return ['10', '11', 'st' if tz is not None else '11'][k]
+
+
+def year_lex(y: int, cls: str) -> str:
+    """lexical year of the astronomical year y: XSD 1.0 has no year 0000 (-0001 is 1 BCE), XSD 1.1 has"""
+    if cls == '10' and y <= 0:
+        y -= 1
+    return ('-' if y < 0 else '') + '%04d' % abs(y)
 
 
 def tz_lex(tz) -> str:
@@ -119,6 +150,8 @@ def case_json(case) -> dict:
             v = (float(it[1]).hex() if not math.isnan(it[1]) else 'nan',)
         if t in 'xy':
             v = (bytes(it[1]).hex(),)
+        if t in 'DT':
+            v = (it[1], it[2] if len(it) > 2 else None, 'class=' + dt_class(it))
         return [TYPE_NAMES[t], *[list(x) if isinstance(x, tuple) else x for x in v]]
     out = {'line': line_of(case), 'expr': expr_of(case), 'mode': case['m'],
            'l': [item(i) for i in case['l']]}
@@ -218,11 +251,14 @@ def build_values(case):
         if t in 'DTt':
             tz = it[2] if len(it) > 2 else None
             v = it[1]
+            if t == 't':
+                return dt.Time.fromstring('%02d:%02d:%02d' % tuple(v) + tz_lex(tz))
+            cls = dt_class(it)
             if t == 'D':
-                return dt.Date10.fromstring('%04d-%02d-%02d' % tuple(v) + tz_lex(tz))
-            if t == 'T':
-                return dt.DateTime10.fromstring('%04d-%02d-%02dT%02d:%02d:%02d' % tuple(v) + tz_lex(tz))
-            return dt.Time.fromstring('%02d:%02d:%02d' % tuple(v) + tz_lex(tz))
+                return {'10': dt.Date10, '11': dt.Date}[cls].fromstring(
+                    year_lex(v[0], cls) + '-%02d-%02d' % tuple(v[1:]) + tz_lex(tz))
+            return {'10': dt.DateTime10, '11': dt.DateTime, 'st': dt.DateTimeStamp}[cls].fromstring(
+                year_lex(v[0], cls) + '-%02d-%02dT%02d:%02d:%02d' % tuple(v[1:]) + tz_lex(tz))
         if t == 'P':
             return dt.Duration(months=it[1], seconds=it[2])
         if t == 'Y':
@@ -459,7 +495,7 @@ def boundary_item(rng, t, year=None):
     if t == 't':
         return ('t', rng.choice([(0, 0, 0), (0, 30, 0), (1, 0, 0), (10, 0, 0), (13, 59, 59), (14, 0, 0), (23, 0, 0),
                                  (23, 59, 59)]), tz)
-    y = year if year is not None else rng.choice([1999, 2000, 2001, 2002, 2003])
+    y = year if year is not None else rng.choice([1999, 2000, 2001, 2002, 2003, -1, 0, 1, 2])
     md = rng.choice([(12, 31), (12, 31), (1, 1), (1, 1), (12, 30), (1, 2), (6, 15)])
     if t == 'D':
         return ('D', (y, *md), tz)
@@ -638,7 +674,7 @@ def gen_cases(run: Run):
     #      midnight, with none / one / both timezones up to +-14:00
     for _ in range(run.scale(4000, 40000)):
         t = rng.choice(['T', 'T', 'D', 'D', 't'])
-        y = rng.choice([1999, 2000, 2001])
+        y = rng.choice([1999, 2000, 2001, 0, 0, -1, 1])        # astronomical: 0 is 1 BCE
         a = boundary_item(rng, t, y)
         b = boundary_item(rng, t, y + rng.choice([0, 1, 1, 1, -1, 2, 3]))
         m = rng.choice(['v2c', 'v2', 'v31', 'v31'])
@@ -697,7 +733,7 @@ def gen_histories(run: Run):
         # targeted: a timezone-less value just after New Year, a zoned value just before it, a third value in
         # another year; first a comparison without implicit timezone (any cached instant of `a` is the UTC one),
         # then comparisons whose outcome depends on the implicit timezone
-        y = rng.choice([1999, 2000, 2001])
+        y = rng.choice([1999, 2000, 2001, 0, -1])
         t = rng.choice(['T', 'T', 'D'])
         if t == 'T':
             a = ('T', (y + 1, 1, 1, rng.choice([0, 1, 2, 4, 6, 11]), rng.choice([0, 30]), 0), None)
@@ -719,7 +755,7 @@ def gen_histories(run: Run):
         hists.append({'vals': vals, 'steps': steps})
     for _ in range(run.scale(1200, 15000)):
         t = rng.choice(['T', 'T', 'T', 'D', 'D', 't'])
-        y = rng.choice([1999, 2000, 2001])
+        y = rng.choice([1999, 2000, 2001, 0, -1, 1])
         vals = {}
         for n in 'abc':
             it = boundary_item(rng, t, y + rng.choice([0, 0, 1, 1, -1, 2]))
